@@ -34,9 +34,9 @@ from simkit.rng import seed_globals  # noqa: E402
 from simkit.world import InvalidScenario, Monitor, Violation, result, run_sim  # noqa: E402
 
 PROPERTY = "C17"
-RUNS = {"quick": 6000, "thorough": 300_000}
+RUNS = {"quick": 4000, "thorough": 300_000}
 WALL = {"quick": 45, "thorough": 1500}
-BATCH = {"quick": 50, "thorough": 400}
+BATCH = {"quick": 25, "thorough": 400}
 SELFTEST_RUNS = 12
 SHRINK_BUDGET_S = {"quick": 20.0, "thorough": 60.0}
 RULE = (
@@ -401,6 +401,7 @@ class Ctx:
         self.t_last_write = max((o["t"] for o in sc["ops"] if o["op"] in ("w", "d")), default=0.0)
         self.sweeps_needed = None
         self.t_quiet_ns = None
+        self.deferred: list = []
         self.first_equal_sweep = None   # completed sweeps at the first idle tick (>= 1 sweep) at which all stores were equal
         self.unequal_after_sweep = 0    # largest number of completed sweeps at an idle tick at which stores still differed
         self.regressed: set = set()
@@ -415,6 +416,24 @@ class Ctx:
         if self.pending is None:
             self.pending = Violation(sig, msg)
 
+    def suspect(self, recheck, sig, msg):
+        """The oracle failed inside the resolving delivery.  The verdict is taken at the end of the current
+        simulated nanosecond (first delivery with a later timestamp, or end of run): an apply that happens at the
+        same instant as the reply counts as 'before' it, so no verdict depends on same-timestamp tie order."""
+        self.deferred.append((self.now_ns(), recheck, sig, msg))
+
+    def now_ns(self):
+        return self.m["stores"][0].now.nanoseconds
+
+    def settle(self, t_ns=None):
+        """Evaluate deferred suspicions whose instant has passed (all of them when t_ns is None)."""
+        while self.deferred and (t_ns is None or self.deferred[0][0] < t_ns):
+            t0, recheck, sig, msg = self.deferred.pop(0)
+            if recheck(t0):
+                self.bump("obs.suspicion_cleared_within_same_instant")
+            else:
+                self.fail(sig, msg)
+
     # ---- reflected: value of this write, or of a write the sequencer ordered after it, is in the replica's log
     def _later_set(self, seq_store, key, v):
         log = seq_store.applied_values(key)
@@ -422,9 +441,9 @@ class Ctx:
             return set(log[log.index(v):])
         return {v}
 
-    def reflected(self, store, seq_store, key, v):
+    def reflected(self, store, seq_store, key, v, upto_ns=None):
         later = self._later_set(seq_store, key, v)
-        applied = store.applied_values(key)
+        applied = store.applied_values(key, upto_ns)
         lit = v in applied
         refl = lit or any(x in later for x in applied)
         return lit, refl
@@ -467,7 +486,8 @@ class Ctx:
             self.flag("probe.sync_ack_judged")
             if n_refl < len(rs):
                 missing = [self.m["nodes"][i + 1].name for i, (_, r) in enumerate(rs) if not r]
-                self.fail("C17/ack-sync-all-backups/PrimaryNode/backup-unapplied",
+                self.suspect(lambda t: all(self.reflected(st, stores[0], key, v, t)[1] for st in stores[1:]),
+                             "C17/ack-sync-all-backups/PrimaryNode/backup-unapplied",
                           f"SYNC write {key}={v} acknowledged at t={self.m['nodes'][0].now.to_seconds():.6f}s but backups {missing} "
                           f"have applied neither it nor a later write to {key}")
         elif mode == "SEMI_SYNC":
@@ -475,7 +495,8 @@ class Ctx:
             if 0 < n_refl < len(rs):
                 self.flag("probe.semisync_ack_partial")
             if n_refl < 1:
-                self.fail("C17/ack-semisync-one-backup/PrimaryNode/no-backup-applied",
+                self.suspect(lambda t: any(self.reflected(st, stores[0], key, v, t)[1] for st in stores[1:]),
+                             "C17/ack-semisync-one-backup/PrimaryNode/no-backup-applied",
                           f"SEMI_SYNC write {key}={v} acknowledged at t={self.m['nodes'][0].now.to_seconds():.6f}s but none of the "
                           f"{len(rs)} backups has applied it (or a later write to {key})")
 
@@ -495,7 +516,8 @@ class Ctx:
                 self.flag("probe.ack_reflected_by_later_write")
             if not refl:
                 role = nodes[i].role.name.lower()
-                self.fail(f"C17/ack-chain-all-nodes/ChainNode/{role}-unapplied",
+                self.suspect(lambda t, st=st: self.reflected(st, stores[0], key, v, t)[1],
+                             f"C17/ack-chain-all-nodes/ChainNode/{role}-unapplied",
                           f"chain write {key}={v} acknowledged at t={nodes[0].now.to_seconds():.6f}s but node {nodes[i].name} ({role}) "
                           f"has applied neither it nor a later write to {key}")
                 return
@@ -547,12 +569,17 @@ class Ctx:
         else:
             cl = [c for c in self.obs.cleans.get((served_by, key), ()) if ta < c[0] and (ts is None or c[0] < ts)]
             cause = "cleaned-by-older-version" if cl else "not-marked-dirty"
-        self.fail(f"C17/chain-read-committed/ChainNode/{cause}",
-                  f"read of {key} at {served_by} (CRAQ={'on' if craq else 'off'}) returned {v!r} at t={nodes[0].now.to_seconds():.6f}s; "
+        self.suspect(lambda t: stores[tail_i].stamp_of(key, v, t) is not None,
+                     f"C17/chain-read-committed/ChainNode/{cause}",
+                     f"read of {key} at {served_by} (CRAQ={'on' if craq else 'off'}) returned {v!r} at t={nodes[0].now.to_seconds():.6f}s; "
                   f"the tail has not applied {v!r} yet (tail log for {key}: {stores[tail_i].applied_values(key)})")
 
     # ---- after every delivery
     def on_delivery(self, ev, mon):
+        if self.deferred:
+            self.settle(ev.time.nanoseconds)
+            if self.pending is not None:
+                raise self.pending
         self.obs.on_event(ev, mon)
         if self.scheme == "ml":
             self._ml_poll()
@@ -665,6 +692,10 @@ def run(sc: dict) -> dict:
         c["harness.delivery_cap"] = 1
     diverged = False
     judged_conv = False
+    if outcome == "ok" and ctx.deferred:
+        ctx.settle(None)
+        if ctx.pending is not None:
+            outcome, sig, msg = "violation", ctx.pending.sig, ctx.pending.msg
     if outcome == "ok":
         # quiescence: every non-daemon event is drained
         if scheme in ("pb", "chain") and not ctx.faulty:
